@@ -156,45 +156,8 @@ def analyse_loop(chk, loop, seen):
            'activation', site=site)
 
 
-class _Tagged:
-    """The checker with every construct name suffixed (second analysis of
-    the same code under another reading of it)."""
-
-    def __init__(self, chk, tag):
-        self._chk, self._tag = chk, tag
-
-    def __getattr__(self, name):
-        return getattr(self._chk, name)
-
-    def ob(self, rule, construct, ok, fact='', **kw):
-        return self._chk.ob(rule, '%s %s' % (construct, self._tag), ok,
-                            fact, **kw)
-
-    def undecide(self, rule, construct, why):
-        return self._chk.undecide(rule, '%s %s' % (construct, self._tag),
-                                  why)
-
-
 def run(chk, ctx):
     _analyse(chk, ctx)
-    # `assert` statements are compiled away under python -O /
-    # PYTHONOPTIMIZE: a bound that only an assert enforces is not a bound
-    # there.  When the decode side has any, the whole argument is repeated
-    # on the program without them.
-    nas = 0
-    for mi in ctx.prog.modules.values():
-        if mi.name.endswith(('.decode', '.frame', '.header', '.body',
-                             '.heartbeat', '.base', '.common')):
-            nas += sum(isinstance(n, ast.Assert) for n in ast.walk(mi.tree))
-    chk.units['assert_statements_decode_side'] = nas
-    if nas:
-        from .. import context
-        I.ASSERTS_REMOVED = True
-        try:
-            _analyse(_Tagged(chk, '[python -O: asserts removed]'),
-                     context.Context(ctx.repo, ctx.tier))
-        finally:
-            I.ASSERTS_REMOVED = False
 
 
 def _analyse(chk, ctx):
@@ -444,12 +407,55 @@ def _analyse(chk, ctx):
                        'n is bounded by the length of the buffer' if bounded
                        else 'n comes from the wire and is not checked '
                        'against the data available'), site=e_.site)
+    # an error message that re-quotes the message of the nested failure
+    # (repr of the caught exception) inside a recursive decoder doubles its
+    # escapes with every nesting level
+    rseen_ = set()
+    for it_ in runs:
+        for e_ in it_.effects:
+            if e_.kind != 'repr-of-caught' or e_.site in rseen_:
+                continue
+            fn_ = e_.detail
+            if fn_ not in cyc:
+                continue
+            rseen_.add(e_.site)
+            chk.ob('C08.A', 'error message at %s' % e_.site, False,
+                   '%s re-raises with the repr() of the exception it caught '
+                   'from a nested decode: every nesting level re-quotes and '
+                   're-escapes the inner message, so its size grows by a '
+                   'factor per level (a few hundred bytes of nested tables '
+                   'allocate without bound)' % fn_, site=e_.site)
+    # the depth of the recursive decoders (and with it the copies of the
+    # remaining buffer they hold) is bounded by the interpreter's recursion
+    # limit: the package must not raise it
+    lifted = []
+    for mi in prog.modules.values():
+        for n_ in ast.walk(mi.tree):
+            if not isinstance(n_, ast.Call):
+                continue
+            try:
+                tgt = prog.resolve_static(mi, n_.func, mi)
+            except Exception:
+                tgt = None
+            path = tgt[1] if isinstance(tgt, tuple) and tgt and \
+                tgt[0] == 'ext' else None
+            if path in ('sys.setrecursionlimit', 'threading.stack_size',
+                        'resource.setrlimit'):
+                lifted.append('%s at %s:%d' % (path, mi.relpath,
+                                               n_.lineno))
+    chk.ob('C08.R', 'interpreter limits', not lifted,
+           'the package leaves the recursion limit alone' if not lifted
+           else 'the package changes an interpreter limit (%s): nesting '
+           'depth, and the memory held per level, is no longer bounded by '
+           'the default limit' % '; '.join(lifted))
     # memory kept across calls: no caching wrapper on the decode side
     from .. import models
     dfuncs = [fi for fi in prog.functions.values()
               if fi.module.name.endswith(('.decode', '.frame', '.header',
                                           '.body', '.heartbeat', '.base'))]
     caching, unknown_deco = models.wrappers(prog, dfuncs)
+    from .. import controls
+    controls.caching_wrappers_control(chk)
     chk.rule('C08.M', 'no caching wrapper on the decode side: what a call '
              'allocates is released with its result')
     chk.ob('C08.M', 'decode side wrappers', not caching,
